@@ -917,6 +917,9 @@ class Translator:
                 gname = '%s__%s' % (self.cur_fn, name)
                 self.file_statics.append((gname, 'static const char %s[] = %s' % (gname, lit)))
                 self.local_names[v['id']] = gname
+                if not hasattr(self, 'static_literals'):
+                    self.static_literals = set()
+                self.static_literals.add(v['id'])
                 self.locals[-1][v['id']] = CT('const char', 1, cxx='char')
                 return ''
             if t.ref or (core is not None and core.get('kind') not in ('InitListExpr', 'CXXConstructExpr', 'ImplicitValueInitExpr')) or \
@@ -1420,6 +1423,10 @@ class Translator:
                     a = self.default_arg(i, callee)
             mode = sig[i] if sig and i < len(sig) else None
             text = self.expr(a)
+            pk = self.peel(a)
+            if pk.get('kind') == 'DeclRefExpr' and pk.get('referencedDecl', {}).get('id') in getattr(self, 'static_literals', ()):
+                out.append(text)        # a static string literal object: the character array itself (sizeof gives its length)
+                continue
             nb = self.u.get('bool_narrowing_obligation')
             inner_cast = self.skip_wrappers(a)
             if nb and callee and callee[0].split('::')[-1] in nb.get('callees', []) and inner_cast.get('kind') == 'ImplicitCastExpr' and \
